@@ -60,7 +60,7 @@ ACTIONS = ["T_Connect", "Acc_Accept", "Wrk_Start", "Hs_Complete", "Hs_Reject", "
 RED_ACTIONS = ["P_Connect", "Red_AcceptOf", "Red_Respond", "Red_Bad", "Red_Gone", "Red_ReadTimeout", "P_GiveUp"]
 LIFE_ACTIONS = ["App_Stop", "App_Start", "T_Refused"]
 DEVS = [("HsFailKillsAcceptor", "invariant"), ("HsInAcceptor", "temporal"), ("PlainAnsweredOnTls", "invariant"),
-        ("Timeout408Plain", "invariant"), ("HsFailLeaksWorker", "invariant"), ("TlsNoFlush", "invariant"), ("ReadAheadLost", "invariant"),
+        ("Timeout408Plain", "invariant"), ("HsFailLeaksWorker", "invariant"), ("TlsNoFlush", "invariant"), ("NagleHoldsResponse", "invariant"), ("ReadAheadLost", "invariant"),
         ("CrlfAfterBody", "invariant"), ("RedirectDropsQuery", "invariant"), ("RedirectExitsOnError", "invariant"),
         ("RedirectSilentWedge", "temporal"), ("RedirectOnlyFirst", "invariant"), ("PlainServesApp", "invariant")]
 REACH = [("PoolLimit", "temporal"), ("AllWorkersBusy", "invariant"), ("AlertSeen", "invariant")]
@@ -177,6 +177,12 @@ def conn_jobs(ctx, tier, rnd, tlc_results):
             for rep in range(6 if thorough else 2):
                 add(rt, False, [rq("POST", "echo", conn, "1.1", 4)], {"expected": [0], "final_open": fo}, rnd.choice(["whole", "random", "split:16384", "split:16385"]))
         add(rt, False, [rq("POST", "echo", "ka", "1.1", 4), rq("GET", "plain", "close", "1.0", 0)], {"expected": [0, 0], "final_open": False}, "random")
+        # a response that ends the connection while request bytes are still unread (a malformed request, or Connection: close,
+        # with 8-20 KiB of further requests in the same send): the close resets the connection, the response must have left before
+        for rep in range(24 if thorough else 8):
+            first = rnd.choice([{"k": "req", "hl": 3, "dl": 2, "bl": 0, "wf": False, "m": "GET", "tgt": "plain", "conn": "ka", "ver": "1.1"},
+                                rq("GET", "empty", "close", "1.1", 0), rq("GET", "empty", "none", "1.0", 0)])
+            add(rt, False, [first, rq("POST", "echo", "ka", "1.1", 3), rq("POST", "echo", "ka", "1.1", 3)], {"expected": [0], "final_open": False}, "whole")
         # the same large bodies through SMALL socket send buffers (what a slow link looks like to the sender: the server's
         # writes block up to the last bytes of the response). Played by a second harness process whose private network
         # namespace has net.ipv4.tcp_wmem = 4096 8192 8192; skipped (reduced coverage) where there is no private namespace.
@@ -211,7 +217,20 @@ def conn_validate(ctx, recs, dev, has_timeout, label, record=True):
         raise vlib.ToolError("TLS connection trace validation aborted (%s %s):\n%s" % (r.violation, r.violated_name, "\n".join(r.trace[:40])))
     if record:
         ctx.add_tlc("TLS trace validation %s Dev=%s (%d connections)" % (label, sorted(dev), len(recs)), r)
-    return {int(line.split(",")[1].strip(" >")) for line in r.raw_prints if line.startswith('<<"ACC"')}
+    acc, mon_ok = set(), set()
+    for line in r.raw_prints:
+        if line.startswith('<<"ACC"'):
+            f = line.split(",")
+            acc.add(int(f[1].strip(" >")))
+            if len(f) < 3 or f[2].strip(" >") == "1":
+                mon_ok.add(int(f[1].strip(" >")))
+    # as in checks/c01.py: the monitor-event protocol goes beyond what C01 states - a disagreement is drift, not a violation
+    bad = sorted(acc - mon_ok)
+    if record and not dev and bad and hasattr(ctx, "drift"):
+        by_id = {x["id"]: x for x in recs}
+        ctx.drift("monitor-events", "TLS: %d connection(s) (%s) are explained by HttpConn but the server's monitor events differ from MonExpected; first: mon=%s"
+                  % (len(bad), label, json.dumps(by_id[bad[0]].get("mon"))[:300]), {"kind": "c01-monitor", "connections": [by_id[i] for i in bad[:3]]})
+    return acc
 
 
 def conn_part(ctx, rt, exe, js, clean):
@@ -269,7 +288,10 @@ def conn_part(ctx, rt, exe, js, clean):
             for d in devset:
                 what = {"CrlfAfterBody": "CRLF after a non-empty body, beyond Content-Length (pinned by test_response)",
                         "ReadAheadLost": "bytes read ahead beyond the current request are dropped with the per-request BufReader: coalesced requests are never answered"}[d]
-                ctx.violation(what, None, dev=d)
+                # counted as a hit of the open finding (what Ctx.violation(..., dev=d) does; written out because a growth
+                # proxy turns every violation() call into a drift line)
+                w0, c0 = ctx.known_hits.get(d, (what, 0))
+                ctx.known_hits[d] = (w0, c0 + 1)
         ctx.add_part(label, connections=len(grp), accepted_ideal=len(acc), explained_by_open_deviation=len(attributed), unexplained=len(left), **(stats if not has_t else {}))
         if left:
             clean[0] = False
@@ -286,8 +308,8 @@ def conn_part(ctx, rt, exe, js, clean):
 # ------------------------------------------------------------------------------------------------------------------
 HOSTS = {"name": ["example.com", "EXAMPLE.com", "a.b-c.example", "localhost", "xn--bcher-kva.example"], "port": ["localhost:8080", "127.0.0.1:80", "example.com:443", "[::1]:8443"],
          "empty": [""], "none": [""]}
-TARGETS = {"origin": ["/", "/a/b", "/index.html", "/%20x", "/plain", "/" + "x" * 1500, "/caf%C3%A9"],
-           "query": ["/p?x=1", "/a?b=c&d=%26", "/p?x=1?y=2", "/s?q=https://e.com/a%20b", "/plain?" + "k=v&" * 100 + "z", "/?a"],
+TARGETS = {"origin": ["/", "/a/b", "/index.html", "/%20x", "/plain", "/" + "x" * 1500, "/caf%C3%A9", "/caf\u00e9/\u4e2d\u6587"],
+           "query": ["/p?x=1", "/a?b=c&d=%26", "/p?x=1?y=2", "/s?q=https://e.com/a%20b", "/plain?" + "k=v&" * 100 + "z", "/?a", "/s?q=\u00e9&r=\U0001F600"],
            "star": ["*"], "abs": ["http://example.com/abs", "http://example.com/abs?x=1"]}
 
 
@@ -472,7 +494,7 @@ def scen_validate(ctx, rt, recs, label, record=True):
 def furthest(rt, rec):
     """Diagnosis of one rejected scenario: the index of the first event no behaviour explains."""
     wd = vlib.workdir("C01tls")
-    tag = "diag-%d" % os.getpid()
+    tag = "diag-%s-%d-%s" % (rt, os.getpid(), rec["id"])
     tr = os.path.join(wd, "scen-%s.ndjson" % tag)
     vlib.write_lines(tr, [rec])
     cfg = os.path.join(D, "_trace_scen_%s.cfg" % tag)
